@@ -72,7 +72,7 @@ impl Property for C06 {
     }
     fn strategy(&self, _tier: Tier) -> BoxedStrategy<Case> {
         // ordinal + separator + digit shapes: splice a separator / ordinal into a speller phrase
-        let shaped = (lang_strategy(), num_strategy(1_000_000), choices(), num_strategy(1000), 0u8..6, threshold_strategy()).prop_map(|(lang, n, ch, m, shape, th)| {
+        let shaped = (lang_strategy(), num_strategy(1_000_000), choices(), num_strategy(1000), 0u8..9, threshold_strategy()).prop_map(|(lang, n, ch, m, shape, th)| {
             let mut c = crate::choose::Bytes::new(&ch);
             let r = 1 + n % crate::spell::ordinal_max(&lang);
             let ord = crate::spell::ordinal(&lang, r, &mut c).map(|x| x.0).unwrap_or_else(|| crate::spell::cardinal(&lang, r, &mut c));
@@ -85,6 +85,23 @@ impl Property for C06 {
                 2 => [ord.clone(), ord].concat(),
                 3 => [ord, vec![conj], card].concat(),
                 4 => [card.clone(), vec![sep.clone()], card, vec![sep], ord].concat(),
+                6 => [ord.clone(), vec![sep], ord].concat(),
+                7 | 8 => {
+                    // a 13..25 digit integer part (10^12 scale words where the language has them) with a decimal part
+                    let big: Vec<String> = match lang.as_str() {
+                        "de" => vec!["billion".into()],
+                        "it" => vec!["bilioni".into()],
+                        "nl" => vec!["biljoen".into()],
+                        "pt" => vec!["biliões".into()],
+                        "en" => vec!["million".into(), "billion".into()],
+                        "fr" => vec!["millions".into(), "milliard".into()],
+                        _ => vec![],
+                    };
+                    let tail = crate::spell::cardinal(&lang, 1 + n % 999, &mut c);
+                    let frac = crate::spell::fraction(&lang, &format!("{}", 100 + m), &mut c);
+                    let head = crate::spell::cardinal(&lang, 2 + m % 97, &mut c);
+                    if shape == 7 { [head, big, tail, vec![sep], frac].concat() } else { [head, big, tail].concat() }
+                }
                 _ => [card, ord].concat(),
             };
             (lang, words.join(" "), th)
